@@ -12,6 +12,7 @@ After every operation:
        snapshot of every variable value incl. tzinfo/__dict__, namespace maps) are unchanged.
 """
 import gc
+import re
 import hashlib
 import datetime
 
@@ -29,10 +30,10 @@ NSMAP = {'p': X.NS}
 
 
 def min_version(expr):
-    if any(k in expr for k in ('map', 'array', '[ ')) or expr in X.FN_EXPRS or expr in X.ABANDON_EXPRS:
+    if any(k in expr for k in ('map', 'array', '[ ', 'sort(')) or expr in X.FN_EXPRS or expr in X.ABANDON_EXPRS:
         return '3.1'
     if any(k in expr for k in (' ! ', 'let $', 'function(', 'path(', 'head(', 'tail(', 'innermost', 'outermost',
-                               'has-children', 'serialize', 'generate-id', 'sort(', 'parse-xml', 'for-each',
+                               'has-children', 'serialize', 'generate-id', 'sort(', 'parse-xml', 'for-each', 'format-', 'analyze-string',
                                'filter(', 'fold-')):
         return '3.0'
     return '2.0'
@@ -56,8 +57,10 @@ def gen_expr(rng):
         e = rng.choice(X.ABANDON_EXPRS)
     elif x < 0.75:
         e = rng.choice(X.SERIALIZE_EXPRS)
-    elif x < 0.9:
+    elif x < 0.84:
         e = rng.choice(X.VAR_EXPRS)
+    elif x < 0.93:
+        e = rng.choice(X.PARAM_EXPRS)
     else:
         e = rng.choice(X.FAILING)
     if rng.random() < 0.15:
@@ -72,10 +75,17 @@ def gen_case(rng, tier):
     thorough = tier == 'thorough'
     ndocs = rng.randint(1, 3)
     docs = [{'xml': X.gen_xml(rng), 'form': rng.choice(FORMS)} for _ in range(ndocs)]
-    nvs = rng.randint(1, 2)
+    nvs = rng.randint(1, 3)
     varsets = []
     for _ in range(nvs):
         vs = {k: rng.choice(v) for k, v in X.VARIABLE_SPECS.items()}
+        if varsets and rng.random() < 0.6:
+            # a perturbation of the first set: most bindings equal, a few different (what a per-call-site memo
+            # keyed on some of the arguments gets wrong)
+            keep = dict(varsets[0])
+            for k in rng.sample(sorted(X.VARIABLE_SPECS), rng.choice([1, 2, 3])):
+                keep[k] = vs[k]
+            vs = keep
         d = rng.randrange(ndocs)
         vs['node'] = ['node', d, rng.randint(0, 5)]
         vs['nodes'] = ['nodes', d, [rng.randint(0, 5) for _ in range(rng.choice([0, 1, 2]))]]
@@ -85,6 +95,23 @@ def gen_case(rng, tier):
     for _ in range(nsel):
         e, v = gen_expr(rng)
         selectors.append({'expr': e, 'v': v})
+    if rng.random() < 0.2:
+        # memo-focused history: few call sites whose arguments come from variables, evaluated again and again
+        # through the same Selector / token under bindings that differ in one or two variables
+        nsel = rng.randint(1, 2)
+        selectors = []
+        for _ in range(nsel):
+            e = rng.choice(X.PARAM_EXPRS)
+            mv = min_version(e)
+            selectors.append({'expr': e, 'v': rng.choice([x for x in ('2.0', '3.0', '3.1', '3.1') if x >= mv])})
+        used = sorted(set(n for sl in selectors for n in re.findall(r'\$(\w+)', sl['expr']) if n in X.VARIABLE_SPECS))
+        varsets = varsets[:1]
+        while len(varsets) < 3 and used:
+            keep = dict(varsets[0])
+            for k in rng.sample(used, min(len(used), rng.choice([1, 1, 2]))):
+                keep[k] = rng.choice(X.VARIABLE_SPECS[k])
+            varsets.append(keep)
+        nvs = len(varsets)
     nops = rng.randint(3, 40 if thorough else 16)
     ops = []
     ntasks = 0
@@ -470,6 +497,12 @@ def run_case(case, world):
             if t is None or t['state'] != 'suspended':
                 continue
             feats = t['feats'] + [kind]
+            tdk = t['op']['doc'] % len(docs)
+            if case['docs'][tdk]['form'].startswith('nodetree') and tdk in frag_false_on \
+                    and t['op'].get('frag') is not False \
+                    and 'prebuilt-node-tree-used-before-with-fragment=False' not in feats:
+                # the node tree was re-parented (recorded finding) while this generator was suspended
+                feats.append('prebuilt-node-tree-used-before-with-fragment=False')
             if kind == 'step':
                 try:
                     for _ in range(op.get('n', 1)):
